@@ -259,7 +259,8 @@ def extra_items():
                     "harness.tr.tr_numbers", "harness.tr.tr_codecs", "harness.tr.tr_conc",
                     "harness.tr.tr_bindings", "harness.tr.tr_arity", "harness.tr.tr_equality",
                     "harness.tr.tr_printer",
-                    "harness.tr.tr_lazyseq", "harness.tr.tr_syntaxquote"):
+                    "harness.tr.tr_lazyseq", "harness.tr.tr_syntaxquote",
+                    "harness.tr.tr_collections"):
         try:
             mod = __import__(modname, fromlist=["ITEMS"])
         except ImportError:
